@@ -18,6 +18,7 @@ import (
 	"encoding/json"
 	"fmt"
 	"strings"
+	"time"
 
 	"github.com/peterstace/simplefeatures/geom"
 	"verifharness/lib"
@@ -37,14 +38,36 @@ func res(name string, g geom.Geometry, err error) string {
 	return fmt.Sprintf("%s|%s|%d", name, lib.Dump(g), v)
 }
 
-// call guards a set operation: a panic is reported as an error return of the operation.
-func call(f func() (geom.Geometry, error)) (g geom.Geometry, err error) {
-	defer func() {
-		if p := recover(); p != nil {
-			err = fmt.Errorf("PANIC: %v", p)
-		}
+// call guards a set operation: a panic is reported as an error return of the operation, and so is
+// a call that does not come back within callTimeout (the looping goroutine cannot be stopped; after
+// maxTimeouts such calls the run ends early with the cases produced so far).
+const callTimeout = 10 * time.Second
+const maxTimeouts = 3
+
+var timeouts int
+
+func call(f func() (geom.Geometry, error)) (geom.Geometry, error) {
+	type out struct {
+		g   geom.Geometry
+		err error
+	}
+	ch := make(chan out, 1)
+	go func() {
+		defer func() {
+			if p := recover(); p != nil {
+				ch <- out{geom.Geometry{}, fmt.Errorf("PANIC: %v", p)}
+			}
+		}()
+		g, err := f()
+		ch <- out{g, err}
 	}()
-	return f()
+	select {
+	case o := <-ch:
+		return o.g, o.err
+	case <-time.After(callTimeout):
+		timeouts++
+		return geom.Geometry{}, fmt.Errorf("TIMEOUT: no result within %v", callTimeout)
+	}
 }
 
 func op2(name string, f func(a, b geom.Geometry) (geom.Geometry, error), a, b geom.Geometry) (string, geom.Geometry, bool) {
@@ -61,6 +84,47 @@ func envEq(e, f geom.Envelope) bool {
 	return emin == fmin && emax == fmax
 }
 
+// pairFields runs every observed call on the pair (a, b).
+func pairFields(i int, class, kinds string, ga, gb geom.Geometry) []string {
+	fields := []string{fmt.Sprintf("%d", i), "P", class, kinds, lib.Dump(ga), lib.Dump(gb)}
+	sU, gU, okU := op2("U", geom.Union, ga, gb)
+	sI, gI, okI := op2("I", geom.Intersection, ga, gb)
+	sD, gD, okD := op2("D", geom.Difference, ga, gb)
+	sS, _, _ := op2("S", geom.SymmetricDifference, ga, gb)
+	env := "na"
+	if okU {
+		if envEq(gU.Envelope(), ga.Envelope().ExpandToIncludeEnvelope(gb.Envelope())) {
+			env = "eq"
+		} else {
+			env = "ne"
+		}
+	}
+	fields = append(fields, env, sU, sI, sD, sS)
+	ua, err := call(func() (geom.Geometry, error) { return geom.UnaryUnion(ga) })
+	fields = append(fields, res("UA", ua, err))
+	ub, err := call(func() (geom.Geometry, error) { return geom.UnaryUnion(gb) })
+	fields = append(fields, res("UB", ub, err))
+	s, _, _ := op2("Ur", geom.Union, gb, ga)
+	fields = append(fields, s)
+	s, _, _ = op2("Ir", geom.Intersection, gb, ga)
+	fields = append(fields, s)
+	s, _, _ = op2("Sr", geom.SymmetricDifference, gb, ga)
+	fields = append(fields, s)
+	s, _, _ = op2("Uaa", geom.Union, ga, ga)
+	fields = append(fields, s)
+	s, _, _ = op2("Iaa", geom.Intersection, ga, ga)
+	fields = append(fields, s)
+	s, _, _ = op2("Daa", geom.Difference, ga, ga)
+	fields = append(fields, s)
+	s, _, _ = op2("Saa", geom.SymmetricDifference, ga, ga)
+	fields = append(fields, s)
+	if okD && okI {
+		s, _, _ = op2("PT", geom.Union, gD, gI)
+		fields = append(fields, s)
+	}
+	return fields
+}
+
 func main() {
 	a := lib.ParseArgs()
 	w, done := a.Output()
@@ -70,7 +134,7 @@ func main() {
 	classes := map[string]int{}
 	pairKinds := map[string]int{}
 	listLens := map[int]int{}
-	for i := 0; i < a.N; i++ {
+	for i := 0; i < a.N && timeouts < maxTimeouts; i++ {
 		r := root.Fork()
 		general := i%10 == 7 || i%20 == 19
 		class := "even45"
@@ -78,6 +142,16 @@ func main() {
 			class = "general"
 		}
 		g := newGrid(r, general)
+		if i%100 == 13 || (a.Tier == "thorough" && i%20 == 13) {
+			// ---------------- general-position float64 pair
+			fg := newFgen(r)
+			ka, kb := r.Intn(7), r.Intn(7)
+			ga, gb := fg.operand(ka).Build(), fg.operand(kb).Build()
+			classes["pair_float"]++
+			pairKinds["float:"+kindNames[ka]+"x"+kindNames[kb]]++
+			fmt.Fprintln(w, strings.Join(pairFields(i, "float", kindNames[ka]+"x"+kindNames[kb], ga, gb), "\t"))
+			continue
+		}
 		if i%5 == 4 {
 			// ---------------- UnionMany / UnaryUnion
 			k := r.Range(0, 6)
@@ -124,42 +198,7 @@ func main() {
 		ga, gb := na.Build(), nb.Build()
 		classes["pair_"+class]++
 		pairKinds[kindNames[ka]+"x"+kindNames[kb]]++
-		fields := []string{fmt.Sprintf("%d", i), "P", class, kindNames[ka] + "x" + kindNames[kb], lib.Dump(ga), lib.Dump(gb)}
-		sU, gU, okU := op2("U", geom.Union, ga, gb)
-		sI, gI, okI := op2("I", geom.Intersection, ga, gb)
-		sD, gD, okD := op2("D", geom.Difference, ga, gb)
-		sS, _, _ := op2("S", geom.SymmetricDifference, ga, gb)
-		env := "na"
-		if okU {
-			if envEq(gU.Envelope(), ga.Envelope().ExpandToIncludeEnvelope(gb.Envelope())) {
-				env = "eq"
-			} else {
-				env = "ne"
-			}
-		}
-		fields = append(fields, env, sU, sI, sD, sS)
-		ua, err := call(func() (geom.Geometry, error) { return geom.UnaryUnion(ga) })
-		fields = append(fields, res("UA", ua, err))
-		ub, err := call(func() (geom.Geometry, error) { return geom.UnaryUnion(gb) })
-		fields = append(fields, res("UB", ub, err))
-		s, _, _ := op2("Ur", geom.Union, gb, ga)
-		fields = append(fields, s)
-		s, _, _ = op2("Ir", geom.Intersection, gb, ga)
-		fields = append(fields, s)
-		s, _, _ = op2("Sr", geom.SymmetricDifference, gb, ga)
-		fields = append(fields, s)
-		s, _, _ = op2("Uaa", geom.Union, ga, ga)
-		fields = append(fields, s)
-		s, _, _ = op2("Iaa", geom.Intersection, ga, ga)
-		fields = append(fields, s)
-		s, _, _ = op2("Daa", geom.Difference, ga, ga)
-		fields = append(fields, s)
-		s, _, _ = op2("Saa", geom.SymmetricDifference, ga, ga)
-		fields = append(fields, s)
-		if okD && okI {
-			s, _, _ = op2("PT", geom.Union, gD, gI)
-			fields = append(fields, s)
-		}
+		fields := pairFields(i, class, kindNames[ka]+"x"+kindNames[kb], ga, gb)
 		fmt.Fprintln(w, strings.Join(fields, "\t"))
 	}
 	stats := map[string]interface{}{"classes": classes, "pair_kinds": pairKinds, "list_lengths": listLens, "generator": st.m}
